@@ -1,1 +1,68 @@
-(* Model/Guards.v -- stub, to be filled in *)
+(* Model/Guards.v -- hand-written range / conformability specifications of the checked entry points (C20).
+   Written from the documentation and the property text, NOT from the guards: the theorems of Props/C20.v
+   show that the guards regenerated from the source (gen/GuardTable.v) fire exactly outside these ranges. *)
+From Coq Require Import ZArith.
+Local Open Scope Z_scope.
+
+Definition ok_vec_add_ref (n1 n2 : Z) : Prop := n1 = n2.
+Definition ok_vec_sub_ref (n1 n2 : Z) : Prop := n1 = n2.
+Definition ok_vec_add_assign (n1 n2 : Z) : Prop := n1 = n2.
+Definition ok_vec_sub_assign (n1 n2 : Z) : Prop := n1 = n2.
+Definition ok_vec_dot (n1 n2 : Z) : Prop := n1 = n2.
+Definition ok_vec_dot_f64 (n1 n2 : Z) : Prop := n1 = n2.
+Definition ok_vec_sum_slice (n s e : Z) : Prop := s <= e /\ e < n.
+Definition ok_vec_product_slice (n s e : Z) : Prop := s <= e /\ e < n.
+Definition ok_mat_get_row (r c row : Z) : Prop := row < r.
+Definition ok_mat_get_col (r c col : Z) : Prop := col < c.
+Definition ok_mat_set_row (r c row vl : Z) : Prop := vl = c /\ row < r.
+Definition ok_mat_set_col (r c col vl : Z) : Prop := vl = r /\ col < c.
+Definition ok_mat_delete_row (r c row : Z) : Prop := row < r.
+Definition ok_mat_multiply (r c vl : Z) : Prop := vl = c.
+Definition ok_mat_swap_rows (r c r1 r2 : Z) : Prop := r1 < r /\ r2 < r.
+Definition ok_mat_fill_row (r c row : Z) : Prop := row < r.
+Definition ok_mat_fill_col (r c col : Z) : Prop := col < c.
+Definition ok_mat_solve_basic (r c bl : Z) : Prop := r = bl /\ r = c.
+Definition ok_mat_lu (r c : Z) : Prop := r = c.
+Definition ok_mat_solve_lu (r c bl : Z) : Prop := r = bl /\ r = c.
+Definition ok_mat_inverse (r c : Z) : Prop := r = c.
+Definition ok_mat_determinant (r c : Z) : Prop := r = c.
+Definition ok_mat_add_ref (r c r2 c2 : Z) : Prop := r = r2 /\ c = c2.
+Definition ok_mat_sub_ref (r c r2 c2 : Z) : Prop := r = r2 /\ c = c2.
+Definition ok_mat_add_assign_ref (r c r2 c2 : Z) : Prop := r = r2 /\ c = c2.
+Definition ok_mat_sub_assign_ref (r c r2 c2 : Z) : Prop := r = r2 /\ c = c2.
+Definition ok_mat_mul_ref (r c r2 c2 : Z) : Prop := c = r2.
+Definition ok_band_fill_band (n m1 m2 band : Z) : Prop := - m1 <= band /\ band <= m2.
+Definition ok_band_solve (n m1 m2 bl : Z) : Prop := n = bl.
+Definition ok_band_index (n m1 m2 i j : Z) : Prop := j <= i + m2 /\ i <= j + m1.
+Definition ok_band_index_mut (n m1 m2 i j : Z) : Prop := j <= i + m2 /\ i <= j + m1.
+Definition ok_band_add_ref (n m1 m2 n2 p1 p2 : Z) : Prop := n = n2 /\ m1 = p1 /\ m2 = p2.
+Definition ok_band_sub_ref (n m1 m2 n2 p1 p2 : Z) : Prop := n = n2 /\ m1 = p1 /\ m2 = p2.
+Definition ok_band_add_assign_ref (n m1 m2 n2 p1 p2 : Z) : Prop := n = n2 /\ m1 = p1 /\ m2 = p2.
+Definition ok_band_sub_assign_ref (n m1 m2 n2 p1 p2 : Z) : Prop := n = n2 /\ m1 = p1 /\ m2 = p2.
+Definition ok_band_mul_vec (n m1 m2 vl : Z) : Prop := n = vl.
+Definition ok_tri_with_vectors (ns nm nu : Z) : Prop := ns = nm - 1 /\ nu = nm - 1.
+Definition ok_tri_with_vecs (ns nm nu : Z) : Prop := ns = nm - 1 /\ nu = nm - 1.
+Definition ok_tri_convert (n : Z) : Prop := 1 <= n.
+Definition ok_tri_solve (n rl : Z) : Prop := n = rl.
+Definition ok_tri_index (n i j : Z) : Prop := i < n /\ j < n /\ (i = j \/ i = j + 1 \/ i + 1 = j).
+Definition ok_tri_index_mut (n i j : Z) : Prop := i < n /\ j < n /\ (i = j \/ i = j + 1 \/ i + 1 = j).
+Definition ok_tri_add (n1 n2 : Z) : Prop := n1 = n2.
+Definition ok_tri_sub (n1 n2 : Z) : Prop := n1 = n2.
+Definition ok_tri_mul_vec (n vl : Z) : Prop := n = vl.
+Definition ok_sp_from_triplets (r c row col : Z) : Prop := row < r /\ col < c.
+Definition ok_sp_get (r c row col : Z) : Prop := row < r /\ col < c.
+Definition ok_sp_insert (r c row col : Z) : Prop := row < r /\ col < c.
+Definition ok_sp_multiply (r c xl : Z) : Prop := c = xl.
+Definition ok_sp_transpose_multiply (r c xl : Z) : Prop := r = xl.
+Definition ok_sp_solve_bicgstab (r c bl xl : Z) : Prop := r = bl /\ r = c /\ bl = xl.
+Definition ok_sp_solve_cg (r c bl xl : Z) : Prop := r = bl /\ r = c /\ bl = xl.
+Definition ok_sp_solve_qmr (r c bl xl : Z) : Prop := r = bl /\ r = c /\ bl = xl.
+Definition ok_sp_solve_bicg (r c bl xl itol : Z) : Prop := r = bl /\ r = c /\ bl = xl /\ (itol = 1 \/ itol = 2).
+Definition ok_mesh1_set_nodes_vars (nn nv node vl : Z) : Prop := node < nn /\ vl = nv.
+Definition ok_mesh1_get_nodes_vars (nn nv node : Z) : Prop := node < nn.
+Definition ok_mesh2_set_nodes_vars (nx ny nv i j vl : Z) : Prop := i < nx /\ j < ny /\ vl = nv.
+Definition ok_mesh2_get_nodes_vars (nx ny i j : Z) : Prop := i < nx /\ j < ny.
+Definition ok_mesh2_var_as_matrix (nx ny nv var : Z) : Prop := var < nv.
+Definition ok_poly_index (len i : Z) : Prop := i < len.
+Definition ok_poly_index_mut (len i : Z) : Prop := i < len.
+Definition ok_poly_roots_degree (len : Z) : Prop := 2 <= len.
